@@ -1,0 +1,82 @@
+//go:build verif
+// +build verif
+
+package compare
+
+// Machine-checked contracts for gvc (see /verif/DESIGN.md). Comment-only file:
+// no executable code, excluded from every normal build.
+
+//@ spec compare.smt2
+
+//@ axiom sumBase(f, t) = diagSum(f, t, 0) == 0
+//@ axiom sumStep(f, t, j, d) = diagSum(f, t, j + 1) == diagSum(f, t, j) + d
+
+//@ define wfStruct(s) = s != nil && forall(k, 0, len(s.Fields), s.Fields[k] != nil && allocated(s.Fields[k]))
+//@ define sameOrFresh(p) = ref(p.lints) == old(ref(p.lints)) || fresh(p.lints)
+//@ define wfPass(p) = p != nil && len(p.lints) >= 0
+
+//@ contract (*Pass).Report
+//@   props C20
+//@   requires p != nil
+//@   modifies p.lints, elems(p.lints)
+//@   ensures(one) len(p.lints) == old(len(p.lints)) + 1
+//@   ensures(backing) sameOrFresh(p)
+
+//@ contract (*Pass).getRelativePath
+//@   props C20
+//@   pure
+
+//@ contract (*Pass).requiredField
+//@   props C20
+//@   requires p != nil && fromField != nil && toField != nil && to != nil
+//@   modifies p.lints, elems(p.lints)
+//@   ensures(exact) len(p.lints) == old(len(p.lints)) + ite(!fromField.Required && toField.Required, 1, 0)
+//@   ensures(backing) sameOrFresh(p)
+
+//@ contract (*Pass).changedTypes
+//@   props C20
+//@   requires p != nil && fromField != nil && toField != nil && to != nil
+//@   modifies p.lints, elems(p.lints)
+//@   ensures(exact) len(p.lints) == old(len(p.lints)) + ite(fromField.Type != nil && toField.Type != nil && thriftName(fromField.Type) != thriftName(toField.Type), 1, 0)
+//@   ensures(backing) sameOrFresh(p)
+
+//@ contract (*Pass).function
+//@   props C20
+//@   requires p != nil
+//@   modifies p.lints, elems(p.lints)
+//@   ensures(exact) len(p.lints) == old(len(p.lints)) + ite(to == nil, 1, 0)
+//@   ensures(backing) sameOrFresh(p)
+
+//@ contract (*Pass).structSpecs
+//@   props C20
+//@   requires wfPass(p) && wfStruct(from) && wfStruct(to)
+//@   let L0 = len(p.lints)
+//@   modifies p.lints, elems(p.lints)
+//@   use sumBase(ref(from), ref(to))
+//@   loop 1: invariant -1 <= ridx && ridx < len(from.Fields) && fields != nil && fresh(fields) && len(p.lints) == L0
+//@   loop 1: invariant forall(k, 0, ridx + 1, has(fields, from.Fields[k].ID))
+//@   loop 1: invariant forall(id, int16, has(fields, id) ==> fields[id] != nil && fields[id].ID == id && allocated(fields[id]) && !fresh(fields[id]))
+//@   loop 2: invariant -1 <= ridx && ridx < len(to.Fields) && fields != nil && fresh(fields)
+//@   loop 2: invariant forall(id, int16, has(fields, id) ==> fields[id] != nil && fields[id].ID == id && allocated(fields[id]) && !fresh(fields[id]))
+//@   loop 2: invariant len(p.lints) == L0 + diagSum(ref(from), ref(to), ridx + 1)
+//@   loop 2: invariant ref(p.lints) == ref(old(p.lints)) || fresh(p.lints)
+//@   loop 2: use sumStep(ref(from), ref(to), ridx + 1, ite(has(fields, to.Fields[ridx+1].ID), ite(!fields[to.Fields[ridx+1].ID].Required && to.Fields[ridx+1].Required, 1, 0) + ite(fields[to.Fields[ridx+1].ID].Type != nil && to.Fields[ridx+1].Type != nil && thriftName(fields[to.Fields[ridx+1].ID].Type) != thriftName(to.Fields[ridx+1].Type), 1, 0), ite(to.Fields[ridx+1].Required, 1, 0)))
+//@   ensures(total) len(p.lints) == L0 + diagSum(ref(from), ref(to), len(to.Fields))
+//@   ensures(backing) sameOrFresh(p)
+
+//@ contract (*Pass).typ
+//@   props C20
+//@   requires wfPass(p)
+//@   requires typeis(from, *compile.StructSpec) ==> wfStruct(from.(*compile.StructSpec))
+//@   requires typeis(to, *compile.StructSpec) ==> wfStruct(to.(*compile.StructSpec))
+//@   modifies p.lints, elems(p.lints)
+//@   ensures(onlystructs) !(typeis(from, *compile.StructSpec) && typeis(to, *compile.StructSpec)) ==> len(p.lints) == old(len(p.lints))
+
+//@ contract (*Pass).service
+//@   props C20
+//@   requires wfPass(p) && from != nil
+//@   modifies p.lints, elems(p.lints)
+//@   loop 1: invariant p != nil && (ref(p.lints) == ref(old(p.lints)) || fresh(p.lints))
+//@   loop 1: invariant (forall(n, Str, has(from.Functions, n) ==> has(to.Functions, n) && to.Functions[n] != nil)) ==> len(p.lints) == old(len(p.lints))
+//@   ensures(deleted) to == nil ==> len(p.lints) == old(len(p.lints)) + 1
+//@   ensures(compatible) to != nil && forall(n, Str, has(from.Functions, n) ==> has(to.Functions, n) && to.Functions[n] != nil) ==> len(p.lints) == old(len(p.lints))
